@@ -134,7 +134,10 @@ def str_concat(parts):
 
 
 def int_to_str(t):
-    """str(int) for a z3 Int term."""
+    """str(int) for a z3 Int term (ground facts about str.from_int help both solvers)."""
+    for x in (t, -t):
+        p = z3.IntToStr(x)
+        axiom(z3.Implies(x >= 0, z3.And(z3.InRe(p, RE_DIGITS), z3.StrToInt(p) == x, z3.Length(p) >= 1)))
     return z3.If(t >= 0, z3.IntToStr(t), z3.Concat(z3.StringVal("-"), z3.IntToStr(-t)))
 
 
@@ -253,22 +256,38 @@ def char_in_ranges(c, ranges):
     return z3.Or(*[z3.And(code >= lo, code <= hi) for lo, hi in ranges])
 
 
-def model_strip(ex, st, s):
-    """s.strip(): fresh a, r, b with s = a ++ r ++ b; a, b whitespace; r has no ws at the ends."""
-    if isinstance(s, str):
-        return s.strip()
-    a = z3.String(fresh_name("lws"))
-    r = z3.String(fresh_name("strip"))
-    b = z3.String(fresh_name("rws"))
-    axiom(s.t == z3.Concat(a, r, b))
+PY_STRIP = z3.Function("py_strip", z3.StringSort(), z3.StringSort())
+PY_LWS = z3.Function("py_strip_lws", z3.StringSort(), z3.StringSort())
+PY_RWS = z3.Function("py_strip_rws", z3.StringSort(), z3.StringSort())
+
+
+def no_ws_ends(r):
+    return z3.And(z3.Not(z3.InRe(z3.SubString(r, 0, 1), RE_WS)),
+                  z3.Not(z3.InRe(z3.SubString(r, z3.Length(r) - 1, 1), RE_WS)))
+
+
+def strip_term(t):
+    """s.strip() as the uninterpreted py_strip(s) with its defining ground facts."""
+    r, a, b = PY_STRIP(t), PY_LWS(t), PY_RWS(t)
+    axiom(t == z3.Concat(a, r, b))
     axiom(z3.InRe(a, z3.Star(RE_WS)))
     axiom(z3.InRe(b, z3.Star(RE_WS)))
-    axiom(z3.Or(z3.Length(r) == 0,
-                z3.And(z3.Not(z3.InRe(z3.SubString(r, 0, 1), RE_WS)),
-                       z3.Not(z3.InRe(z3.SubString(r, z3.Length(r) - 1, 1), RE_WS)))))
-    # a is the maximal ws prefix: if r is empty put everything in a
+    axiom(z3.Or(z3.Length(r) == 0, no_ws_ends(r)))
     axiom(z3.Implies(z3.Length(r) == 0, z3.Length(b) == 0))
-    return SV("str", r)
+    return r
+
+
+def strip_unique_instance(s, a, r, b):
+    """Uniqueness of the strip decomposition (a true fact about str.strip, trusted builtin model)."""
+    return z3.Implies(z3.And(s == z3.Concat(a, r, b), z3.InRe(a, z3.Star(RE_WS)), z3.InRe(b, z3.Star(RE_WS)),
+                             z3.Length(r) > 0, no_ws_ends(r)),
+                      PY_STRIP(s) == r)
+
+
+def model_strip(ex, st, s):
+    if isinstance(s, str):
+        return s.strip()
+    return SV("str", strip_term(s.t))
 
 
 def norm_index(i, n):
@@ -1395,30 +1414,37 @@ def isinstance_check(ex, st, ref, tp):
     raise U(f"isinstance of {v!r} against {name}")
 
 
+PY_INT_OK = z3.Function("py_int_ok", z3.StringSort(), z3.BoolSort())
+PY_INT_VAL = z3.Function("py_int_val", z3.StringSort(), z3.IntSort())
+RE_SIGNED = z3.Concat(z3.Option(z3.Union(z3.Re("+"), z3.Re("-"))), RE_DIGITS)
+
+
+def int_of_signed_instance(c, sg, d):
+    """Trusted fact about int(): a stripped text ``sg ++ d`` with sg in {'', '+', '-'} and d ASCII digits
+    parses, and its value is +/- the value of d."""
+    return z3.Implies(
+        z3.And(c == z3.Concat(sg, d), z3.Or(sg == z3.StringVal(""), sg == z3.StringVal("+"), sg == z3.StringVal("-")),
+               z3.InRe(d, RE_DIGITS)),
+        z3.And(PY_INT_OK(c), PY_INT_VAL(c) == z3.If(sg == z3.StringVal("-"), -z3.StrToInt(d), z3.StrToInt(d))))
+
+
 def model_int_of_str(ex, st, s):
-    """int(str): generator of (st, value|Exc).  Exact on ws* [+-]? [0-9]+ ws*."""
+    """int(str): exact on ws* [+-]?[0-9]+ ws*; any other text either raises ValueError or yields an
+    unconstrained int (underscores, non-ASCII digits): py_int_ok / py_int_val are uninterpreted."""
     if isinstance(s, str):
         try:
             yield st, int(s)
         except ValueError:
             yield ex.raise_(st, "ValueError")
         return
-    core = model_strip(ex, st, s)
-    t = core.t
-    sign = z3.SubString(t, 0, 1)
-    has_sign = z3.Or(sign == z3.StringVal("-"), sign == z3.StringVal("+"))
-    digits = z3.If(has_sign, z3.SubString(t, 1, z3.Length(t) - 1), t)
-    plain = z3.InRe(digits, z3.Plus(RE_DIGIT))
-    for st1, ok in ex.branch(st, _wrap_bool(plain)):
+    c = strip_term(s.t)
+    axiom(z3.Implies(z3.InRe(c, RE_SIGNED), PY_INT_OK(c)))
+    axiom(z3.Implies(z3.InRe(c, RE_DIGITS), PY_INT_VAL(c) == z3.StrToInt(c)))
+    for st1, ok in ex.branch(st, _wrap_bool(PY_INT_OK(c))):
         if ok:
-            mag = z3.StrToInt(digits)
-            yield st1, SV("int", z3.If(sign == z3.StringVal("-"), -mag, mag))
+            yield st1, SV("int", PY_INT_VAL(c))
         else:
-            # underscores / non-ASCII digits: either ValueError or some int (over-approximation)
-            st2 = st1.fork()
             yield ex.raise_(st1, "ValueError")
-            st2.notes.append("int(): non-plain numeral accepted with unconstrained value")
-            yield st2, fresh("int", "int_of_odd")
 
 
 def call_builtin(ex, st, f: BuiltinRef, args, kwargs):
